@@ -49,7 +49,7 @@ var props = map[string]propSpec{
 	"C14": {"C14", []string{"gendet"}, "", nil},
 	"C15": {"C15", []string{"gensort"}, "", nil},
 	"C16": {"C16", []string{"genconfig"}, "", nil},
-	"C17": {"C17", []string{"custom", "custombad", "custombadto"}, "", nil},
+	"C17": {"C17", []string{"custom", "customplan", "custombad", "custombadto"}, "", nil},
 	"C18": {"C18", []string{"genwhole"}, "", nil},
 	"C19": {"C19", []string{"boundary"}, "", nil},
 	"C20": {"C20", []string{"empty", "rnd-empty"}, "", nil},
